@@ -151,8 +151,51 @@ def w_cli(case):
     return res
 
 
+def w_nesting(case):
+    """programs that leave N loops open (or close N more than are open) before further lines are listed"""
+    res = mkres()
+    try:
+        variant, dialect = case['variant'], case['dialect']
+        recs = []
+        for n in case['depths']:
+            for tok in (0xE3, 0xF5, 0xED, 0xFD):
+                per_line = case.get('per_line', 1)
+                lines = []
+                left = n
+                num = 1
+                while left > 0:
+                    k = min(per_line, left)
+                    lines.append((num, bytes([tok]) * k))
+                    num += 1
+                    left -= k
+                lines.append((num, b'\xf1"after"'))
+                lines.append((num + 1, bytes([0xED if tok == 0xE3 else 0xFD if tok == 0xF5 else 0xE3]) + b':' + b'\xf1"x"'))
+                for listo in (7, 2, 4, 1):
+                    recs.append((dialect, listo, [R.frame(dialect, lines)]))
+        for idx, rec, results, crash in mcb.run_all(variant, recs):
+            judge(res, 'C08:nesting:' + variant, rec, results, crash, note='nesting')
+        res['nt'].append((variant, dialect, tuple(case['depths']), case.get('per_line', 1)))
+        res['ntcount'] = len(recs)
+        if res['viol']:
+            res['case'] = case
+    except Exception:
+        import traceback
+        res['viol'].append(('HARNESS', traceback.format_exc()))
+        res['case'] = case
+    return res
+
+
+def fam_nesting(tier):
+    """N unclosed FOR / REPEAT (or N surplus NEXT / UNTIL) tokens, N = 1..80 and larger powers, one per line and many per line, then more lines"""
+    depths = list(range(1, 81)) + [100, 128, 129, 200, 255, 256, 257, 512, 1000] + ([5000, 20000] if tier == 'thorough' else [])
+    for dialect in (['6502', 'Z80'] if tier == 'quick' else R.DISTINCT):
+        for per_line in (1, 7, 250):
+            for i in range(0, len(depths), 12):
+                yield {'w': 'nesting', 'variant': 'san', 'dialect': dialect, 'depths': depths[i:i + 12], 'per_line': per_line}
+
+
 def worker(case):
-    return {'strings': w_strings, 'mutants': w_mutants, 'cli': w_cli}[case['w']](case)
+    return {'strings': w_strings, 'mutants': w_mutants, 'cli': w_cli, 'nesting': w_nesting}[case['w']](case)
 
 
 def fam_cli(tier):
@@ -222,7 +265,7 @@ def fam_mut(tier):
                        'hi': min(lo + 8, n)}
 
 
-FAMILIES = [('CLI-matrix', fam_cli), ('S-short-strings', fam_short), ('A-class-alphabet', fam_alpha),
+FAMILIES = [('N-loop-nesting-depth', fam_nesting), ('CLI-matrix', fam_cli), ('S-short-strings', fam_short), ('A-class-alphabet', fam_alpha),
             ('M-seed-mutants', fam_mut)]
 
 
